@@ -330,6 +330,51 @@ def gen_multivar(thorough):
     return out
 
 
+def gen_mismatch(thorough):
+    """the buffer description (bufcount x buftype) holds one element fewer / as many / one more than the request addresses, for every kind of
+    buffer datatype: a mismatch is NC_EIOMISMATCH and changes nothing, a match is carried out inside its target"""
+    from engine.script import Script
+    out = []
+    dims = [('t', None), ('x', 7)]
+    vars_ = [('a', D.NC_BYTE, [1]), ('b', D.NC_INT, [1]), ('r', D.NC_SHORT, [0, 1])]
+    lays = ['contig', 'cont2', 'vec:1:2', 'vec:2:3', 'idx', 'struct', 'hvec:1:3', 'rsz:1:2'] if thorough else ['contig', 'cont2', 'vec:2:3', 'idx', 'struct']
+    for lay in lays:
+        for isget in (False, True):
+            for nb in ((None, 'i', 'b') if not isget else (None, 'i')):
+                s = Script('MM-%s-%s-%s' % (lay.replace(':', '_'), 'get' if isget else 'put', nb or 'blocking'), 1, 2, dims, vars_, hints='nc_header_align_size=4;nc_var_align_size=4;nc_record_align_size=4')
+                s.put('*', 0, form='var', coll=1, tag=60, scale=1); s.put('*', 1, form='var', coll=1, tag=61)
+                s.put('*', 2, [0, 0], [2, 7], None, form='vara', coll=1, tag=62)
+                s.op('*', 'buffer_attach', size=1024)
+                tag = 1
+                for v, st, ct in ((0, [1], [6]), (1, [0], [6]), (1, [1], [6]), (2, [0, 1], [1, 6]), (2, [0, 0], [2, 3])):
+                    n = D.nelems(ct)
+                    for m in (n - 1, n, n + 1):
+                        tag = tag % 80 + 1
+                        mem = D.XT_MEM[s.model.vars[v].xtype]
+                        exp = 0 if m == n else D.NC_EIOMISMATCH
+                        extra = dict(nel=m) if m != n else None
+                        if isget:
+                            kw = dict(f=0, form='vara', v=v, s=st, c=ct, mem=mem, api='flex', coll=1)
+                            if lay != 'contig': kw['lay'] = lay
+                            if extra: kw.update(extra)
+                            if nb: kw.update(nb=nb, req=0, coll=None)
+                            s.op('*', 'get', expect_rc=exp, **kw)
+                            if nb: s.op('*', 'wait', f=0, kind='ALL', all=1)
+                        else:
+                            s.put('*', v, st, ct, None, form='vara', api='flex', lay=None if lay == 'contig' else lay, coll=0 if nb else 1, tag=tag, nb=nb, req=0 if nb else None,
+                                  expect_rc=exp, update=False, extra=extra)
+                            if nb: s.op('*', 'wait', f=0, kind='ALL', all=1)
+                            if m == n:
+                                idx = D.region_indices(s.model.vars[v].shape if not s.model.vars[v].isrec else [2] + list(s.model.vars[v].shape[1:]), st, ct, None)
+                                vals, sc = s.values_for(v, len(idx), tag, mem)
+                                s.model.put_idx(v, idx, vals)
+                        for vv in range(3): s.get_all('*', vv, coll=1, what='every variable after a request whose buffer holds %s elements' % ('as many' if m == n else 'one fewer' if m < n else 'one more'))
+                s.op('*', 'buffer_detach')
+                s.finish()
+                out.append(s)
+    return out
+
+
 def main(tier=None):
     ck = Check('C15', 'exploration', tier)
     b = build.build('plain')
@@ -392,13 +437,19 @@ def main(tier=None):
         nt += x.nevals
         for sig, detail in x.judge(r): ck.violation(sig, x.case.text(), x.case.name + ': ' + detail)
     ck.cov['multi_variable_orders'] = len(mv)
+    # buffer descriptions that do not match the request size
+    mm = gen_mismatch(thorough)
+    for x, r in zip(mm, runner.run_cases(b['vx'], [x.case for x in mm], batch=10)):
+        nt += x.nevals
+        for sig, detail in x.judge(r): ck.violation(sig, x.case.text(), x.case.name + ': ' + detail)
+    ck.cov['size_mismatch_programs'] = len(mm)
     ck.cov['request_pairs'] = npairs
     ck.cov['evaluations'] = nt
     ck.cov['distinct_nontrivial'] = nt
     ck.cov['rule'] = ('every (start,count,stride) in {-1..len+1} x {-1..len+1} x {-1,0,1,2,len,len+1} per dimension for shapes (3), (2,3), (U,2) and a reduced grid for (2,2,2) through put/get_vars, and derived tuple sets through '
                       'var1, vara, varm, varn, iput/iget/bput+wait; strict and relaxed coordinate bound; the file is snapshot after every call: rejected, zero-length and read requests may not change a byte, accepted writes '
                       'may change only the bytes of the addressed elements (+ the numrecs field) which must then hold the new values; the blocking forms again with the tuple passed by one process of a 2-3 process collective call while the others pass valid requests; every ordered pair of in-range boxes of a (6), (3,4) and (U,3) variable posted as two iput/bput requests completed by one wait_all '
-                      'or as the two segments of one put_varn / iput_varn (disjoint, adjacent, partially overlapping, nested): only bytes of the union may change, elements of one box hold its value, elements of both hold either; nonblocking writes (iput / bput) to 3-4 (thorough 5) variables posted in every order and completed by one wait_all (by ids / NC_REQ_ALL): every variable is read back, the file reopened and decoded')
+                      'or as the two segments of one put_varn / iput_varn (disjoint, adjacent, partially overlapping, nested): only bytes of the union may change, elements of one box hold its value, elements of both hold either; nonblocking writes (iput / bput) to 3-4 (thorough 5) variables posted in every order and completed by one wait_all (by ids / NC_REQ_ALL): every variable is read back, the file reopened and decoded; flexible requests whose buffer description (contiguous, vector, indexed, struct with members of different block lengths, resized) holds one element fewer / as many / one more than the request addresses, blocking, iput / iget, bput: NC_EIOMISMATCH and nothing changed, or carried out inside the target')
     ck.sample(allc[0][0][0].text()[:1500])
     ck.assumptions += ['bytes beyond the previous end of file that a record-appending write does not address are undefined content and not compared', 'where no document orders two applicable codes (NC_ENEGATIVECNT vs NC_EEDGE / NC_ESTRIDE) either is accepted', 'larger shapes and derived buffer types for out-of-range requests are outside the bound (the property\'s random clause is not done)']
     runner.cleanup()
